@@ -621,6 +621,40 @@ func runC19(c *Ctx, idx int) {
 				return
 			}
 		}
+		// trials are recorded in place, as Execute records them into its pre-allocated list and as a caller replaces the record
+		// of a repeated trial: the aggregates asked for in between and afterwards are those of the trials as recorded then
+		if nt := len(se.trials); nt > 0 && r.Intn(3) == 0 {
+			inc := &synthExperiment{exp: &experiment.Experiment{Id: se.exp.Id, Name: se.exp.Name, Trials: make(experiment.Trials, nt)}, trials: make([][]synthGen, nt)}
+			for k := 0; k < nt; k++ {
+				inc.exp.Trials[k] = experiment.Trial{Id: k}
+			}
+			for k := 0; k < nt; k++ {
+				if kind, msg := checkAggregates(c, inc, inc.exp, true); kind != "" {
+					c.Violate(kind, map[string]interface{}{"experiment": inc.brief(), "key": "recorded-in-place"}, "with %d of %d pre-allocated trials recorded in place: %s", k, nt, msg)
+					return
+				}
+				inc.exp.Trials[k], inc.trials[k] = se.exp.Trials[k], se.trials[k]
+			}
+			if kind, msg := checkAggregates(c, inc, inc.exp, true); kind != "" {
+				c.Violate(kind, map[string]interface{}{"experiment": inc.brief(), "key": "recorded-in-place"}, "with all %d pre-allocated trials recorded in place: %s", nt, msg)
+				return
+			}
+			for try := 0; try < 6; try++ {
+				donor := genSynthExperiment(r, pool)
+				if len(donor.trials) == 0 {
+					continue
+				}
+				k, j := r.Intn(nt), r.Intn(len(donor.trials))
+				inc.exp.Trials[k], inc.trials[k] = donor.exp.Trials[j], donor.trials[j]
+				if kind, msg := checkAggregates(c, inc, inc.exp, true); kind != "" {
+					c.Violate(kind, map[string]interface{}{"experiment": inc.brief(), "key": "recorded-in-place"}, "after the record of trial #%d was replaced in place: %s", k, msg)
+					return
+				}
+				c.Count("experiments.trial_replaced_in_place", 1)
+				break
+			}
+			c.Count("experiments.trials_recorded_in_place", 1)
+		}
 		// the aggregates of an experiment that was stored and restored into an Experiment value already in use (same number
 		// of trials, other content, every cached aggregate computed) are those of the stored generations
 		if i%4 == 1 {
